@@ -45,7 +45,7 @@ fn run(ctx: &mut Ctx, extra: &mut BTreeMap<String, String>) {
     let list: &[u8] = if c.pass == "debug" { &[7, 8, 9, 10, 11, 12, 13, 9, 8, 10, 11, 12, 13, 7, 9, 10] } else { &[16, 15, 17, 9, 12, 18, 14, 21, 16, 15, 10, 20, 17, 22, 13, 19] };
     // (delta 20..22: 4.2 to 16.8 million border cells, results of 32 to 134 MB: size-gated code paths; 23 and 24 in the thorough tier)
     let n_big = if c.thorough && c.pass != "debug" { 4 } else { 1 };
-    for q in 0..n_big { let dd = if c.thorough && c.pass == "release" && q == 3 && (k == 2 || k == 9) { 23 + (k == 9) as u8 } else { list[(k + 5 * q) % list.len()] }; let depth = rng.below(10) as u8; let cs = sample_cells(&mut rng, depth, 8); let h = cs[rng.below(cs.len() as u64) as usize]; judge_big(c, nested::get_or_create(depth), depth, h, dd); }
+    for q in 0..n_big { let dd = if c.thorough && c.pass == "release" && q == 3 && (k == 2 || k == 9) { 23 + (k == 9) as u8 } else { list[(k + 5 * q) % list.len()] }; let depth = rng.below(10u64.min(30 - dd as u64)) as u8; let cs = sample_cells(&mut rng, depth, 8); let h = cs[rng.below(cs.len() as u64) as usize]; judge_big(c, nested::get_or_create(depth), depth, h, dd); }
   });
 }
 
